@@ -200,7 +200,7 @@ PROPS["C05"] = {
          "thorough": {"checks": 2500, "shards": 16, "timeout": 1700}},
         {"pkg": "verifx/tree", "run": "^TestC05Exhaustive$",
          "quick": {"shards": 4, "timeout": 700, "env": {"VERIF_C05_BLOCKS": 4}},
-         "thorough": {"shards": 12, "timeout": 1700, "env": {"VERIF_C05_BLOCKS": 5}}},
+         "thorough": {"shards": 16, "timeout": 1700, "env": {"VERIF_C05_BLOCKS": 6}}},
     ],
 }
 
@@ -483,3 +483,6 @@ _amend("C17", "level_text", "Local / remote stub chains (highest shared block 0-
 _amend("C13", "level_text", "Size() and the unconfirmed report equal recomputed totals,",
        "Size() and the unconfirmed report equal recomputed totals, a fetch with a small drawn byte budget (transactions of about 150 and 1350 bytes are mixed) returns per account a gap-free prefix of the run and fits the budget,")
 _amend("C16", "level_text", "Part A:", "Part A (hard states are persisted on their own or through SaveEntry with an empty entry batch; followers' Next runs ahead of Match when entries are in flight):") if "Part A:" in PROPS["C16"]["level_text"] else None
+
+_amend("C05", "level_text", "Exhaustive unit: every arrival permutation of every tree shape with up to 4 blocks (quick) / 5 (thorough).",
+       "Exhaustive unit: every arrival order of fixed tree shapes (linear, two branches, side block, overtaking side branches, three tips) with up to 4 blocks (quick) / 6 (thorough), each shape also with a wrong state root in the first or last block (quick) / in every block in turn (thorough); besides the invariants the best block must never be an invalid block or built on one.")
